@@ -486,6 +486,8 @@ func MillerLoopFixedQ(P []G1Affine, lines [][2][len(LoopCounter)]LineEvaluationA
 	var result GT
 	result.SetOne()
 	var prodLines [5]E2
+	// line evaluations at P[k] are computed into l0, l1: the caller's lines are read-only
+	var l0, l1 LineEvaluationAff
 
 	// Compute ∏ᵢ { fᵢ_{6x₀+2,Q}(P) }
 	if n >= 1 {
@@ -505,10 +507,10 @@ func MillerLoopFixedQ(P []G1Affine, lines [][2][len(LoopCounter)]LineEvaluationA
 		// k = 1, separately to avoid MulBy34 (res × ℓ)
 		// (res is also a line at this point, so we use Mul34By34 ℓ × ℓ)
 		// line evaluation at P[1]
-		lines[1][0][64].R0.MulByElement(&lines[1][0][64].R0, &xNegOverY[1])
-		lines[1][0][64].R1.MulByElement(&lines[1][0][64].R1, &yInv[1])
+		l0.R0.MulByElement(&lines[1][0][64].R0, &xNegOverY[1])
+		l0.R1.MulByElement(&lines[1][0][64].R1, &yInv[1])
 		// ℓ × res
-		prodLines = fptower.Mul34By34(&lines[1][0][64].R0, &lines[1][0][64].R1, &result.C1.B0, &result.C1.B1)
+		prodLines = fptower.Mul34By34(&l0.R0, &l0.R1, &result.C1.B0, &result.C1.B1)
 		result.C0.B0 = prodLines[0]
 		result.C0.B1 = prodLines[1]
 		result.C0.B2 = prodLines[2]
@@ -519,12 +521,12 @@ func MillerLoopFixedQ(P []G1Affine, lines [][2][len(LoopCounter)]LineEvaluationA
 	// k >= 2
 	for k := 2; k < n; k++ {
 		// line evaluation at P[k]
-		lines[k][0][64].R0.MulByElement(&lines[k][0][64].R0, &xNegOverY[k])
-		lines[k][0][64].R1.MulByElement(&lines[k][0][64].R1, &yInv[k])
+		l0.R0.MulByElement(&lines[k][0][64].R0, &xNegOverY[k])
+		l0.R1.MulByElement(&lines[k][0][64].R1, &yInv[k])
 		// ℓ × res
 		result.MulBy34(
-			&lines[k][0][64].R0,
-			&lines[k][0][64].R1,
+			&l0.R0,
+			&l0.R1,
 		)
 	}
 
@@ -535,12 +537,12 @@ func MillerLoopFixedQ(P []G1Affine, lines [][2][len(LoopCounter)]LineEvaluationA
 
 		for k := 0; k < n; k++ {
 			// line evaluation at P[k]
-			lines[k][0][i].R0.
+			l0.R0.
 				MulByElement(
 					&lines[k][0][i].R0,
 					&xNegOverY[k],
 				)
-			lines[k][0][i].R1.
+			l0.R1.
 				MulByElement(
 					&lines[k][0][i].R1,
 					&yInv[k],
@@ -549,25 +551,25 @@ func MillerLoopFixedQ(P []G1Affine, lines [][2][len(LoopCounter)]LineEvaluationA
 			if LoopCounter[i] == 0 {
 				// ℓ × res
 				result.MulBy34(
-					&lines[k][0][i].R0,
-					&lines[k][0][i].R1,
+					&l0.R0,
+					&l0.R1,
 				)
 			} else {
 				// line evaluation at P[k]
-				lines[k][1][i].R0.
+				l1.R0.
 					MulByElement(
 						&lines[k][1][i].R0,
 						&xNegOverY[k],
 					)
-				lines[k][1][i].R1.
+				l1.R1.
 					MulByElement(
 						&lines[k][1][i].R1,
 						&yInv[k],
 					)
 				// ℓ × ℓ
 				prodLines = fptower.Mul34By34(
-					&lines[k][0][i].R0, &lines[k][0][i].R1,
-					&lines[k][1][i].R0, &lines[k][1][i].R1,
+					&l0.R0, &l0.R1,
+					&l1.R0, &l1.R1,
 				)
 				// (ℓ × ℓ) × res
 				result.MulBy01234(&prodLines)
@@ -578,31 +580,31 @@ func MillerLoopFixedQ(P []G1Affine, lines [][2][len(LoopCounter)]LineEvaluationA
 	// Compute  ∏ᵢ { ℓᵢ_{[6x₀+2]Q,π(Q)}(P) · ℓᵢ_{[6x₀+2]Q+π(Q),-π²(Q)}(P) }
 	for k := 0; k < n; k++ {
 		// line evaluation at P[k]
-		lines[k][1][65].R0.
+		l1.R0.
 			MulByElement(
 				&lines[k][1][65].R0,
 				&xNegOverY[k],
 			)
-		lines[k][1][65].R1.
+		l1.R1.
 			MulByElement(
 				&lines[k][1][65].R1,
 				&yInv[k],
 			)
 		// line evaluation at P[k]
-		lines[k][0][65].R0.
+		l0.R0.
 			MulByElement(
 				&lines[k][0][65].R0,
 				&xNegOverY[k],
 			)
-		lines[k][0][65].R1.
+		l0.R1.
 			MulByElement(
 				&lines[k][0][65].R1,
 				&yInv[k],
 			)
 		// ℓ × ℓ
 		prodLines = fptower.Mul34By34(
-			&lines[k][1][65].R0, &lines[k][1][65].R1,
-			&lines[k][0][65].R0, &lines[k][0][65].R1,
+			&l1.R0, &l1.R1,
+			&l0.R0, &l0.R1,
 		)
 		// (ℓ × ℓ) × res
 		result.MulBy01234(&prodLines)
